@@ -46,8 +46,7 @@ def fuzz_streams(prop, tier, seed, ctx, res, mod):
         if "No module named 'atheris'" in r.stderr:
             res.count(f"fuzz_{t}:unavailable (no atheris)")
             continue
-        st.evaluations += n
-        st.compared += n
+        # time-budgeted, hence machine-dependent: reported in the input distribution only, not in the evaluation counts of the evidence
         res.count(f"fuzz_{t}:inputs", n)
         if r.returncode == 1 and os.path.exists(out):
             d = json.load(open(out))
